@@ -168,6 +168,17 @@ AdapterBlame(cfg, table, p1, p2, st) ==
             IN (IF cfg.revcomp /\ st.isrc >= 0 /\ (st.isrc = 1) # decision THEN {"orient"} ELSE {})
                \cup MateBlame(cfg, table, cfg.ads1, ori, st.m1, st.hasm, st.s1, st.q1)
 
+\* C10, directly on the recorded chain: the modifiers act in the documented order (cut, NextSeq, quality, adapters,
+\* poly-A, --length, --trim-n, then the name steps and zero-capping); labels the recorder does not know are skipped
+StageRank(lab) ==
+  CASE lab = "cut" -> 1 [] lab = "nextseq" -> 2 [] lab = "qtrim" -> 3 [] lab = "adapter" -> 4 [] lab = "polya" -> 5
+    [] lab = "shorten" -> 6 [] lab = "trimn" -> 7 [] lab = "name" -> 8 [] lab = "zerocap" -> 8 [] OTHER -> 0
+RanksOf(chain, second) ==
+  LET labs == [i \in 1..Len(chain) |-> StageRank(IF second THEN chain[i].l2 ELSE chain[i].l1)] IN
+  SelectSeq(labs, LAMBDA x : x > 0)
+NonDecreasing(s) == \A i \in 1..(Len(s) - 1) : s[i] <= s[i + 1]
+OrderOK(cfg, chain) == NonDecreasing(RanksOf(chain, FALSE)) /\ (cfg.paired => NonDecreasing(RanksOf(chain, TRUE)))
+
 \* the modifiers that act on a mate are those the options ask for (a modifier that is missing or superfluous is
 \* nobody's local deviation, but explains a different output): label "stages", owned by C10
 RECURSIVE Rep2(_, _)
@@ -186,7 +197,8 @@ HasUnknown(chain) == \E i \in 1..Len(chain) : chain[i].l1 = "unknown" \/ chain[i
 StagesBlame(cfg, chain) ==
   IF chain = <<>> \/ HasUnknown(chain) THEN {}
   ELSE IF ObservedLabels(chain, FALSE) # ExpectedLabels(cfg, FALSE)
-          \/ (cfg.paired /\ ObservedLabels(chain, TRUE) # ExpectedLabels(cfg, TRUE)) THEN {"stages"} ELSE {}
+          \/ (cfg.paired /\ ObservedLabels(chain, TRUE) # ExpectedLabels(cfg, TRUE))
+          \/ ~OrderOK(cfg, chain) THEN {"stages"} ELSE {}
 
 RECURSIVE BlameFrom(_, _, _, _, _, _)
 BlameFrom(cfg, table, chain, i, p1, p2) ==
@@ -205,17 +217,6 @@ Blame(e, k) ==
   LET rd == e.reads[k] IN
   BlameFrom(e.cfg, rd.table, rd.obs.chain, 1, Rd0(rd.in1.seq, rd.in1.qual), Rd0(rd.in2.seq, rd.in2.qual))
   \cup StagesBlame(e.cfg, rd.obs.chain)
-\* C10, directly on the recorded chain: the modifiers act in the documented order (cut, NextSeq, quality, adapters,
-\* poly-A, --length, --trim-n, then the name steps and zero-capping); labels the recorder does not know are skipped
-StageRank(lab) ==
-  CASE lab = "cut" -> 1 [] lab = "nextseq" -> 2 [] lab = "qtrim" -> 3 [] lab = "adapter" -> 4 [] lab = "polya" -> 5
-    [] lab = "shorten" -> 6 [] lab = "trimn" -> 7 [] lab = "name" -> 8 [] lab = "zerocap" -> 8 [] OTHER -> 0
-RanksOf(chain, second) ==
-  LET labs == [i \in 1..Len(chain) |-> StageRank(IF second THEN chain[i].l2 ELSE chain[i].l1)] IN
-  SelectSeq(labs, LAMBDA x : x > 0)
-NonDecreasing(s) == \A i \in 1..(Len(s) - 1) : s[i] <= s[i + 1]
-OrderOK(cfg, chain) == NonDecreasing(RanksOf(chain, FALSE)) /\ (cfg.paired => NonDecreasing(RanksOf(chain, TRUE)))
-
 PrintBlame(e, k) == \A b \in Blame(e, k) : PrintT(<<"BLAME", e.id, k, b>>)
 
 \* ---- one read ----
